@@ -323,6 +323,10 @@ func runC12(c *Ctx) {
 	c.ruleWireType("R12.2")
 	c.ruleEncodeFailure("R12.3")
 	c.ruleDecodeFailure("R12.4")
+	// the id a stored job carries is the one the bound worker's generator (or WithJobId) chose
+	c.Rep.rule("R12.5", "def-use + reachability", "persistent queues load job configs per job from the bound worker's configuration (also through helpers)", 4)
+	c.ruleJobConfigsPerJob("R12.5", c.P.FuncByKey("loadJobConfigs"))
+	c.ruleDefaultConfigsUnreachable("R12.5", c.P.FuncByKey("loadJobConfigs"))
 }
 
 func (c *Ctx) ruleStatusTablesInverse(rule string) {
